@@ -391,6 +391,37 @@ fn k_suggestion_full_accessors() {
     std::mem::forget(ranks);
 }
 
+/// The phonetic method moves the preselection of a finished list (a punctuation key keeps the caller's choice): whatever the selection
+/// field says afterwards, the pre-edit text of candidate i is (the encoding of) candidate i.
+#[kani::proof]
+#[kani::unwind(8)]
+#[kani::stub(poriborton::bijoy2000::unicode_to_bijoy, stub_bijoy)]
+fn k_suggestion_selection_moved() {
+    let ansi: bool = kani::any();
+    let first_sel: bool = kani::any();
+    let moved_sel: bool = kani::any();
+    let ranks = [Rank::First(String::from("ab")), Rank::Last(String::from("c"), 2)];
+    let mut s = Suggestion::new(String::from("xy"), &ranks, if first_sel { 1 } else { 0 }, ansi);
+    if let Suggestion::Full { selection: ref mut sel, .. } = s {
+        *sel = if moved_sel { 1 } else { 0 };
+    }
+    kani::cover!(ansi && first_sel != moved_sel, "ansi list with a moved selection reachable");
+    assert!(s.previously_selected_index() == if moved_sel { 1 } else { 0 });
+    let second: bool = kani::any();
+    let i: usize = if second { 1 } else { 0 };
+    let want_len: usize = if second { 1 } else { 2 };
+    let want_b0: u8 = if second { b'c' } else { b'a' };
+    let pre = s.get_pre_edit_text(i);
+    if ansi {
+        assert!(pre.len() == want_len + 1 && pre.as_bytes()[0] == b'#' && pre.as_bytes()[1] == want_b0, "read-out is bijoy(candidate) after the selection moved");
+    } else {
+        assert!(pre.len() == want_len && pre.as_bytes()[0] == want_b0, "read-out is the candidate after the selection moved");
+    }
+    std::mem::forget(pre);
+    std::mem::forget(s);
+    std::mem::forget(ranks);
+}
+
 #[kani::proof]
 #[kani::unwind(8)]
 #[kani::stub(poriborton::bijoy2000::unicode_to_bijoy, stub_bijoy)]
